@@ -118,7 +118,10 @@ def gen_one(rng, tier, scale=False):
                 defined[-1] = avail
         classes.append({'base': base, 'decorated': decorated, 'names': names,
                         'maps': maps, 'methods': sorted(methods), 'eq': eq,
-                        'base2': base2, 'same_as': same_as})
+                        'base2': base2, 'same_as': same_as,
+                        # decorated in two steps (the class already has a
+                        # mapping of its own when the second one runs)
+                        'stacked': decorated and rng.random() < 0.15})
     nh = rng.randint(1, 8 if big else 5) if not scale else 90
     handlers = [rng.randrange(ncls) for _ in range(nh)]
     # a handler may carry its own mapping (instance attribute __events__)
@@ -285,7 +288,19 @@ def run_case(case):
             else:
                 deco = desper.event_handler(*spec['names'], **spec['maps'])
             decorators[ci] = deco
-            cls2 = deco(cls)
+            if spec.get('stacked') and spec.get('same_as') is None \
+                    and len(spec['names']) + len(spec['maps']) >= 2:
+                first_names = spec['names'][:1]
+                first_maps = dict(list(spec['maps'].items())[
+                    :0 if first_names else 1])
+                rest_names = spec['names'][len(first_names):]
+                rest_maps = {k: v for k, v in spec['maps'].items()
+                             if k not in first_maps}
+                cls2 = desper.event_handler(*rest_names, **rest_maps)(
+                    desper.event_handler(*first_names, **first_maps)(cls))
+                flags.add('decorated-in-two-steps')
+            else:
+                cls2 = deco(cls)
             if cls2 is not cls:
                 res.div(-1, 'decorator-identity', 'event_handler did not '
                         'return the decorated class', None, None)
